@@ -45,7 +45,7 @@
 (***************************************************************************)
 EXTENDS Integers, Sequences, FiniteSets, TLC, Json
 
-CONSTANTS Alphabet,     \* "quick" | "thorough" | "deep" | "small" | "small12" | "multi" | "special" : which operation alphabet
+CONSTANTS Alphabet,     \* "quick" | "thorough" | "deep" | "small" | "small12" | "multi" | "special" | "flow" : which operation alphabet
           Mode,         \* "cover" | "seq" | "walk"
           MaxOps,       \* length of the operation sequences
           Legacy        \* subset of {"exact-keys", "empty-subfield", "add-unassigned", "unset-ws-truncates"}: falco before the
@@ -57,12 +57,13 @@ Str(s) == s                      \* values are sequences of one-character string
 Q  == "\""
 NL == "\n"
 BS == "\\"
-WS == {" ", NL}
+CR == "\r"
+WS == {" ", NL, CR}
 Sep == ","
 
 \* header names: spelling |-> canonical name (net/http.CanonicalHeaderKey)
 Spellings == CASE Alphabet = "quick" -> <<"Foo", "fOO", "X-Bar">>
-               [] Alphabet \in {"small", "small12", "multi", "special"} -> <<"Foo", "fOO">>
+               [] Alphabet \in {"small", "small12", "multi", "special", "flow"} -> <<"Foo", "fOO">>
                [] OTHER -> <<"Foo", "fOO", "FOO", "X-Bar", "x-bar">>
 \* the objects of one context ("_" = the object is a replay dimension)
 Objs == IF Alphabet = "multi" THEN <<"req", "bereq", "beresp", "obj", "resp">> ELSE <<"_">>
@@ -72,12 +73,12 @@ Canons == {"Foo", "X-Bar"}
 SpSet == {Spellings[i] : i \in 1..Len(Spellings)}
 \* the spellings operations are written through (reads go through all of them)
 WriteSp == CASE Alphabet = "quick" -> {"Foo", "fOO", "X-Bar"}
-             [] Alphabet \in {"small", "small12", "multi", "special"} -> {"Foo", "fOO"}
+             [] Alphabet \in {"small", "small12", "multi", "special", "flow"} -> {"Foo", "fOO"}
              [] OTHER -> {"Foo", "fOO", "X-Bar", "x-bar"}
 MainSp == {n \in WriteSp : Canon(n) = "Foo"}
 
 \* sub-field keys; "A" is another spelling of "a" (the pattern of field.go is case-insensitive)
-Keys == IF Alphabet \in {"small", "small12", "multi"} THEN << <<"a">>, <<"A">> >> ELSE IF Alphabet = "special" THEN << <<"a">>, <<"b">> >> ELSE << <<"a">>, <<"A">>, <<"b">>, <<"a", "b">> >>
+Keys == IF Alphabet \in {"small", "small12", "multi", "flow"} THEN << <<"a">>, <<"A">> >> ELSE IF Alphabet = "special" THEN << <<"a">>, <<"b">> >> ELSE << <<"a">>, <<"A">>, <<"b">>, <<"a", "b">> >>
 Low(c) == IF c = "A" THEN "a" ELSE IF c = "B" THEN "b" ELSE c
 LowS(q) == [i \in 1..Len(q) |-> Low(q[i])]
 KeySet == {Keys[i] : i \in 1..Len(Keys)}
@@ -93,6 +94,7 @@ vXsY == S(<<"x", " ", "y">>)
 vXcY == S(<<"x", ",", "y">>)
 vXeY == S(<<"x", "=", "y">>)
 vXnY == S(<<"x", NL, "y">>)
+vNx == S(<<NL, "x">>)      vXn == S(<<"x", NL>>)      vXrnY == S(<<"x", CR, NL, "y">>)
 vDict == S(<<"a", "=", "x", ",", "b", "=", "y">>)            \* a whole header written as a dictionary
 vDict3 == S(<<"a", "=", "x", ",", "b", "=", "y", ",", "a", "b", "=", "x">>)
 vDictSp == S(<<"a", "=", "x", ",", " ", "a", "b", "=", Q, "x", " ", "y", Q>>)
@@ -103,7 +105,7 @@ Specials == {S(<<"x", BS, "y">>), S(<<"x", BS>>), S(<<"x", BS, Q, "y">>), S(<<"x
              S(<<"x", ";", "y">>), S(<<"x", ":", "y">>), S(<<"(", "x", ")">>), S(<<"x", "/", "y">>), S(<<"x", "'", "y">>),
              S(<<"<", "x", ">">>), S(<<"x", "?">>), S(<<"x", "@", "y">>), S(<<"[", "x", "]">>), S(<<"{", "x", "}">>)}
 WholeVals == CASE Alphabet = "quick" -> {vX, vXsY, vE, vXnY, NULL, vDict3}
-               [] Alphabet = "thorough" -> {vX, vY, vE, vXsY, vXcY, vXeY, vXnY, NS, NULL, vDict, vDictSp, vDict3}
+               [] Alphabet = "thorough" -> {vX, vY, vE, vXsY, vXcY, vXeY, vXnY, vNx, vXn, vXrnY, NS, NULL, vDict, vDictSp, vDict3}
                [] OTHER -> {vX, vE, vXsY, NULL, vDict}
 FieldVals == CASE Alphabet = "quick" -> {vX, vXsY, vE}
                [] Alphabet = "thorough" -> {vX, vY, vE, vXsY, vXcY, vXeY, vXnY, NS, NULL}
@@ -115,8 +117,8 @@ AddVals   == CASE Alphabet = "quick" -> {vX}
                [] OTHER -> {vX, vE}
 \* (no += in random walks: the statement speaks of set / add / unset sequences; += stays in the covers)
 AppVals   == CASE Mode = "walk" -> {}
-               [] Alphabet = "quick" -> {vY}
-               [] Alphabet = "thorough" -> {vY, NULL}
+               [] Alphabet = "quick" -> {vY, vXnY}
+               [] Alphabet = "thorough" -> {vY, NULL, vXnY, vNx, vXn, vXrnY}
                [] OTHER -> {vY}
 
 Op(o, n, k, v) == [op |-> o, n |-> n, k |-> k, v |-> v, o |-> "_"]
@@ -138,7 +140,12 @@ MultiOps == {[x EXCEPT !.o = ob] : ob \in ObjSet,
 SpecialOps == {Op("setf", "Foo", <<"a">>, v) : v \in Specials \cup {vX}}
               \cup {Op("setf", "Foo", <<"b">>, vX), Op("unsetf", "fOO", <<"a">>, NS), Op("unsetf", "Foo", <<"b">>, NS),
                     Op("set", "Foo", Whole, vX), Op("unset", "Foo", Whole, NS), Op("app", "Foo", <<"a">>, vY)}
+\* "flow": the history of req crosses restarts (a restart continues with the same request: nothing may change)
+FlowOps == {Op("set", "Foo", Whole, vX), Op("set", "fOO", Whole, vE), Op("unset", "Foo", Whole, NS),
+            Op("setf", "Foo", <<"a">>, vX), Op("unsetf", "fOO", <<"a">>, NS), Op("add", "Foo", Whole, vX),
+            Op("restart", "Foo", Whole, NS)}
 OpSet == CASE Alphabet = "small" -> SmallOps
+           [] Alphabet = "flow" -> FlowOps
            [] Alphabet = "special" -> SpecialOps
            [] Alphabet = "small12" -> {x \in SmallOps : x.k # <<"A">>}
            [] Alphabet = "multi" -> MultiOps
@@ -276,6 +283,7 @@ Apply(L, A, o) ==
     [] o.op = "setf"   -> MSetF(L, A, o.n, o.k, ns, o.v.s)
     [] o.op = "unset"  -> MUnset(L, A, o.n)
     [] o.op = "unsetf" -> MUnsetF(L, A, o.n, o.k)
+    [] o.op = "restart" -> St(L, A)       \* interpreter.restart(): the same request object goes through vcl_recv again
     [] o.op = "add"    -> MAdd(L, A, o.n, IF ns THEN NullStr ELSE o.v.s)
     [] o.op = "app"    -> \* assignHeaderValue: read, += String() of the right-hand side, mark set, write back
          LET rhs == IF ~ns THEN o.v.s ELSE NullStr
@@ -299,13 +307,17 @@ Read(LL, AA, c) == MGet(LL[c[1]], AA[c[1]], c[2], c[3])
 Eq(v) == [t |-> "eq", v |-> v]
 SameV  == [t |-> "same", v |-> NotSet]
 AnyV   == [t |-> "any", v |-> NotSet]
+\* after += v the cell reads (what it read before, nothing if it was not set) followed by v, cut at the first newline:
+\* the truncation is a law of the stored value, not of the operator "="
+AppT(v) == [t |-> "app", v |-> Val(v)]
 
 \* what the cell (ob, n, k) must read after operation o; before / bc = what the whole header (ob, n) / the cell
 \* itself read before
 Req(o, ob, n, k, before, bc) ==
   IF ob # o.o THEN SameV                                   \* every other object keeps its value
   ELSE IF Canon(n) # Canon(o.n) THEN SameV                 \* every other header keeps its value
-  ELSE CASE o.op = "set" ->
+  ELSE CASE o.op = "restart" -> SameV
+         [] o.op = "set" ->
               IF k # Whole THEN AnyV
               ELSE IF o.v.kind = "str" THEN Eq(Val(CutNL(o.v.s))) ELSE Eq(NotSet)
          [] o.op = "unset" -> IF k = Whole THEN Eq(NotSet) ELSE AnyV
@@ -326,13 +338,14 @@ Req(o, ob, n, k, before, bc) ==
               \* += on something that reads as not set writes the right-hand side (read-after-set with an
               \* empty current value); otherwise the result is C07's business
               LET plain == o.v.kind = "str" /\ ~Has(o.v.s, {NL}) IN
-              IF o.k = Whole THEN (IF k = Whole /\ before.ns /\ plain THEN Eq(Val(o.v.s)) ELSE AnyV)
+              IF o.k = Whole THEN (IF k = Whole /\ o.v.kind = "str" THEN AppT(o.v.s) ELSE AnyV)
               ELSE IF k = Whole THEN AnyV
               ELSE IF LowS(k) # LowS(o.k) THEN SameV
               ELSE IF k = o.k /\ bc.ns /\ plain THEN Eq(Val(o.v.s)) ELSE AnyV
 
 Sat(tag, before, after) == CASE tag.t = "eq" -> after = tag.v
                              [] tag.t = "same" -> after = before
+                             [] tag.t = "app" -> after = Val(CutNL(before.s \o tag.v.s))
                              [] OTHER -> TRUE
 
 ReqOf(o, c) == Req(o, c[1], c[2], c[3], Read(pl, pa, <<c[1], c[2], Whole>>), Read(pl, pa, c))
@@ -346,7 +359,7 @@ SpellingLaw ==
 ----------------------------------------------------------------------------
 (* emission *)
 Enc(v) == IF v.ns THEN "!" ELSE "=" \o Join(v.s)
-EncTag(t) == CASE t.t = "eq" -> Enc(t.v) [] t.t = "same" -> "~" [] OTHER -> "?"
+EncTag(t) == CASE t.t = "eq" -> Enc(t.v) [] t.t = "same" -> "~" [] t.t = "app" -> "+" \o Join(t.v.s) [] OTHER -> "?"
 KeyName(k) == Join(k)
 \* per object, per spelling (in Spellings order): the cells whole, then the keys in Keys order
 KeyAt(j) == IF j = 1 THEN Whole ELSE Keys[j - 1]
@@ -375,7 +388,8 @@ Do(o) == LET r == Apply(lines[o.o], asg[o.o], o)
 \* every candidate successor, so a walk is emitted from here only)
 Finish == Mode = "walk" /\ ~done /\ Len(hist) = MaxOps /\ done' = TRUE /\ UNCHANGED <<lines, asg, pl, pa, last, hist>>
 
-Next == (Len(hist) < MaxOps /\ \E o \in OpSet : Do(o)) \/ Finish
+Restarts == Cardinality({i \in 1..Len(hist) : hist[i].op = "restart"})
+Next == (Len(hist) < MaxOps /\ \E o \in OpSet : (o.op = "restart" => Restarts < 3) /\ Do(o)) \/ Finish
 Spec == Init /\ [][Next]_vars
 
 View == <<pl, pa, last, Len(hist), done>>
@@ -394,6 +408,7 @@ EmitNow == CASE Mode = "cover" -> Len(hist) > 0
              [] OTHER -> done
 Emit == EmitNow =>
           PrintT(<<"BEHAVIOUR", ToJson([steps |-> Steps(hist, L0, A0),
+                                        alpha |-> Alphabet,
                                         objs |-> Objs,
                                         sp |-> Spellings,
                                         canon |-> [i \in 1..Len(Spellings) |-> Canon(Spellings[i])],
